@@ -11,7 +11,6 @@ the `innermost=` arguments of the frame search and the `eval` argument tuple are
 says now.  The builtin side (`specTable`) is the library reference, cross-checked at run time.
 
 What the pinned code falsifies (kept as comments with Lean-checked counterexamples):
-* `enumerate(iterable=…)` — the overload's first parameter is called `s`;
 * `eval`/`locals` inside a functionalised loop/branch body resolve to the body's frame;
 * `eval(src, g)` gets the frame's locals instead of `g`; `eval(src, None, …)` gets py_builtins' globals.
 -/
@@ -70,22 +69,18 @@ example : bind [⟨"a", .posOnly, none⟩] (⟨[], [("a", .arg 4)]⟩ : CallShap
 
 /-! ## Forwarding preserves the builtin's binding
 
-Full statement (FALSE of the pinned code, see `C14_forward_counterexample`):
-
-    theorem C14_forward (b ∈ supportedBuiltins) (form ∈ spec b) (c) (userShape c)
-        (bind form c = .ok env) :
-      ∃ r env', forward truthy b c = .ok r ∧ r.callee = b ∧ bind form r.call = .ok env' ∧
-                envEquiv truthy b env env'
--/
+(Until /repo commit 295ca80 the overload of `enumerate` named its first parameter `s`, and the
+statement carried the hypothesis "not `enumerate` called with keyword `iterable`"; the fix removed
+the need for it, and the former counterexample is now a positive example below.) -/
 
 /-- For every substituted builtin, every documented form of its signature and EVERY call shape
-(any number of positionals, any keywords) that the form accepts — except `enumerate` called with
-the keyword `iterable` — the overload accepts the call, the call that reaches the real builtin is
-accepted by the same form, and the builtin's parameters are bound to the same argument values
-(`zip`'s `strict` up to its truth value, which is all `zip` reads). -/
-theorem C14_forward_partial (truthy : α → Bool) (b : String) (hb : b ∈ supportedBuiltins)
+(any number of positionals, any keywords) that the form accepts, the overload accepts the call, the
+call that reaches the real builtin is accepted by the same form, and the builtin's parameters are
+bound to the same argument values (`zip`'s `strict` up to its truth value, which is all `zip` reads).
+Remaining hypothesis `userShape`: user code cannot name the `UNSPECIFIED` sentinel. -/
+theorem C14_forward (truthy : α → Bool) (b : String) (hb : b ∈ supportedBuiltins)
     (form : Signature) (hf : form ∈ spec b) (c : CallShape α) (hu : userShape c = true)
-    (hk : enumerateIterableKw b c = false) (env : Env α) (hacc : bind form c = .ok env) :
+    (env : Env α) (hacc : bind form c = .ok env) :
     ∃ r env', forward truthy b c = .ok r ∧ r.callee = b ∧ bind form r.call = .ok env' ∧
       envEquiv truthy b env env' = true := by
   obtain ⟨ha, rfl⟩ := bind_ok hacc
@@ -106,7 +101,7 @@ theorem C14_forward_partial (truthy : α → Bool) (b : String) (hb : b ∈ supp
     · exact preserved_range1 truthy c ha
     · exact preserved_range2 truthy c hu ha
   · subst hf
-    exact preserved_enumerate truthy c (by simpa [enumerateIterableKw] using hk) ha
+    exact preserved_enumerate truthy c ha
   · subst hf; exact preserved_zip truthy c hu ha
   · subst hf; exact preserved_map truthy c ha
   · subst hf; exact preserved_filter truthy c ha
@@ -137,64 +132,38 @@ example : (∀ form ∈ spec "sorted", accepts form (⟨[.arg 1, .arg 2, .arg 3]
       = .ok ⟨"sorted", ⟨[.arg 1], [("key", .arg 2), ("reverse", .arg 3)]⟩, true⟩ := by
   refine ⟨by decide, rfl⟩
 
-/-- Counterexample to the full statement: `enumerate(iterable=xs, start=n)` is accepted by the
-builtin's signature but the overload raises TypeError (unexpected keyword `iterable`). -/
-theorem C14_forward_counterexample :
-    ∃ (c : CallShape Nat) (form : Signature), form ∈ spec "enumerate" ∧ userShape c = true ∧
-      (∃ env, bind form c = .ok env) ∧
-      forward (fun _ => true) "enumerate" c = .error (.bind (.unexpectedKeyword "iterable")) :=
-  ⟨⟨[], [("iterable", .arg 7), ("start", .arg 1)]⟩, _, List.mem_cons_self .., by decide, ⟨_, rfl⟩, rfl⟩
-
-omit [DecidableEq α] in
-/-- The class of the finding is exact: *every* call of `enumerate` with the keyword `iterable`
-is rejected by the overload with a TypeError. -/
-theorem C14_enumerate_iterable_kw_rejected (truthy : α → Bool) (c : CallShape α)
-    (hk : enumerateIterableKw "enumerate" c = true) :
-    ∃ e, forward truthy "enumerate" c = .error (.bind e) := by
-  have hkey : hasKey "iterable" c.kw = true := by simpa [enumerateIterableKw] using hk
-  have hna : accepts [⟨"s", .posOrKw, none⟩, ⟨"start", .posOrKw, some "0"⟩] c = false := by
-    cases ha : accepts [⟨"s", .posOrKw, none⟩, ⟨"start", .posOrKw, some "0"⟩] c with
-    | false => rfl
-    | true =>
-      exfalso
-      simp only [hasKey, List.any_eq_true, beq_iff_eq] at hkey
-      obtain ⟨kv, hkv, hk1⟩ := hkey
-      have := accepts_keys ha rfl kv hkv
-      rw [hk1] at this
-      simp [freeKwNames, isKw] at this
-  obtain ⟨e, he⟩ := bind_error_of_not_accepts hna
-  refine ⟨e, ?_⟩
-  rw [forward_unfold truthy "enumerate" "enumerate_" _ _ rfl rfl]
-  show callOverload truthy _ c = _
-  unfold callOverload
-  show (match bind [⟨"s", .posOrKw, none⟩, ⟨"start", .posOrKw, some "0"⟩] c with
-        | .error e => Except.error (FwdErr.bind e) | .ok env => _) = _
-  rw [he]
+/-- The former witness of the `enumerate` finding (fixed by 295ca80) is now a positive example:
+`enumerate(iterable=xs, start=n)` and `enumerate(start=n, iterable=xs)` reach `enumerate(xs, n)`. -/
+example : forward (fun _ : Nat => true) "enumerate" ⟨[], [("iterable", .arg 7), ("start", .arg 1)]⟩
+    = .ok ⟨"enumerate", ⟨[.arg 7, .arg 1], []⟩, true⟩ := rfl
+example : forward (fun _ : Nat => true) "enumerate" ⟨[], [("start", .arg 1), ("iterable", .arg 7)]⟩
+    = .ok ⟨"enumerate", ⟨[.arg 7, .arg 1], []⟩, true⟩ := rfl
+example : forward (fun _ : Nat => true) "enumerate" ⟨[], [("iterable", .arg 7)]⟩
+    = .ok ⟨"enumerate", ⟨[.arg 7, .const "0"], []⟩, true⟩ := rfl
 
 /-! ## Same outcome: value, lazy object, output, exception -/
 
 /-- Accepted calls never fail inside the library: any exception the caller sees is raised by the
 real builtin on the forwarded (equivalent) arguments — hence has the builtin's own type. -/
-theorem C14_errors_partial (truthy : α → Bool) (b : String) (hb : b ∈ supportedBuiltins)
+theorem C14_errors (truthy : α → Bool) (b : String) (hb : b ∈ supportedBuiltins)
     (form : Signature) (hf : form ∈ spec b) (c : CallShape α) (hu : userShape c = true)
-    (hk : enumerateIterableKw b c = false) (hacc : accepts form c = true) :
+    (hacc : accepts form c = true) :
     ∀ e, forward truthy b c ≠ .error e := by
   intro e he
-  obtain ⟨r, _, h1, _⟩ := C14_forward_partial truthy b hb form hf c hu hk _ (bind_of_accepts hacc)
+  obtain ⟨r, _, h1, _⟩ := C14_forward truthy b hb form hf c hu _ (bind_of_accepts hacc)
   rw [he] at h1; cases h1
 
 /-- For ANY behaviour `sem` of the real builtins that depends only on how their parameters are
 bound (up to what the builtin can observe), calling the substitute gives the same outcome as
 calling the builtin: same value / lazy object / output / exception. -/
-theorem C14_same_outcome_partial {Out : Type} (truthy : α → Bool) (sem : String → Env α → Out)
+theorem C14_same_outcome {Out : Type} (truthy : α → Bool) (sem : String → Env α → Out)
     (typeError : Out) (raise : FwdErr → Out)
     (hsem : ∀ b e e', envEquiv truthy b e e' = true → sem b e = sem b e')
     (b : String) (hb : b ∈ supportedBuiltins) (form : Signature) (hf : form ∈ spec b)
-    (c : CallShape α) (hu : userShape c = true) (hk : enumerateIterableKw b c = false)
-    (hacc : accepts form c = true) :
+    (c : CallShape α) (hu : userShape c = true) (hacc : accepts form c = true) :
     runOverload truthy sem typeError raise b form c = runBuiltin (sem b) typeError form c := by
   obtain ⟨r, env', h1, h2, h3, h4⟩ :=
-    C14_forward_partial truthy b hb form hf c hu hk _ (bind_of_accepts hacc)
+    C14_forward truthy b hb form hf c hu _ (bind_of_accepts hacc)
   simp only [runOverload, runBuiltin, h1, h2, h3, bind_of_accepts hacc]
   exact (hsem b _ _ h4).symm
 
